@@ -40,7 +40,8 @@ import (
 
 const (
 	vpC16RespMax = 20 * time.Second // a response must arrive (nominal <= 60 ms)
-	vpC16Slack   = 15 * time.Second // handler end / slot release after a gate opened (nominal: microseconds)
+	vpC16Slack   = 15 * time.Second // handler end after its gate opened, Serve return (nominal: microseconds)
+	vpC16SlotMax = 5 * time.Second  // a slot must be free this long after its handler returned (nominal: microseconds)
 
 	vpC16KeyServeConn = "C16/serveconn-only-timeouthandler-always-429"
 	vpC16DefaultCT    = "text/plain; charset=utf-8"
@@ -524,7 +525,7 @@ func vpC16RunScenario(t *rapid.T, sc vpC16Scenario) {
 			clients[j] = cl
 		}
 	}
-	cleaned := false
+	cleaned, slotLeak := false, false
 	cleanup := func() {
 		if cleaned {
 			return
@@ -554,7 +555,9 @@ func vpC16RunScenario(t *rapid.T, sc vpC16Scenario) {
 			}
 		}
 		// every handler goroutine has to be gone before the next case starts
-		r.waitSlots(0, vpC16Slack)
+		if !slotLeak {
+			r.waitSlots(0, vpC16Slack)
+		}
 		wd := make(chan struct{})
 		go func() { r.selfWG.Wait(); close(wd) }()
 		select {
@@ -650,9 +653,10 @@ func vpC16RunScenario(t *rapid.T, sc vpC16Scenario) {
 					n++
 				}
 			}
-			if !r.waitSlots(n, vpC16Slack) {
+			if !r.waitSlots(n, vpC16SlotMax) {
+				slotLeak = true
 				return fmt.Sprintf("%d concurrency slots are in use %v after all but %d wrapped handlers returned (held=%v): a later call would be refused with 429 without cause",
-					r.slotsHeld(), vpC16Slack, n, len(held))
+					r.slotsHeld(), vpC16SlotMax, n, len(held))
 			}
 			return ""
 		}
@@ -739,8 +743,9 @@ func vpC16RunScenario(t *rapid.T, sc vpC16Scenario) {
 			}
 		}
 	}
-	if complaint == "" && sc.Ln != "serveconn" && !r.waitSlots(0, vpC16Slack) {
-		complaint = fmt.Sprintf("%d concurrency slots still in use %v after every wrapped handler returned", r.slotsHeld(), vpC16Slack)
+	if complaint == "" && sc.Ln != "serveconn" && !r.waitSlots(0, vpC16SlotMax) {
+		complaint = fmt.Sprintf("%d concurrency slots still in use %v after every wrapped handler returned", r.slotsHeld(), vpC16SlotMax)
+		slotLeak = true
 	}
 	if complaint == "" {
 		// connections must still be open and clean: nothing beyond the answered responses
